@@ -343,10 +343,13 @@ func (state *RuntimeState) u2fSignResponse(w http.ResponseWriter, r *http.Reques
 		http.Error(w, "registration missing", http.StatusBadRequest)
 		return
 	}
+	// A challenge is single use: it is consumed by the first response
+	// checked against it, whatever the outcome.
 	state.Mutex.Lock()
 	localAuth, ok := state.localAuthData[authData.Username]
+	delete(state.localAuthData, authData.Username)
 	state.Mutex.Unlock()
-	if !ok {
+	if !ok || localAuth.ExpiresAt.Before(time.Now()) {
 		http.Error(w, "challenge missing", http.StatusBadRequest)
 		return
 	}
@@ -367,7 +370,6 @@ func (state *RuntimeState) u2fSignResponse(w http.ResponseWriter, r *http.Reques
 			u2fReg.Counter = newCounter
 			profile.U2fAuthData[i] = u2fReg
 			//profile.U2fAuthChallenge = nil
-			delete(state.localAuthData, authData.Username)
 
 			eventNotifier.PublishAuthEvent(eventmon.AuthTypeU2F, authData.Username)
 			_, isXHR := r.Header["X-Requested-With"]
